@@ -1,3 +1,3 @@
 #!/bin/sh
 # replays this counterexample against the real build
-cd /tmp/seedonly_C01c_9229 && VERIF_SCRIPT=/verif/replays/C07/VHarnessFaultSwap_3c319530_0/script.json VERIF_RAW_SALT=0 GOFLAGS=-mod=mod GOPROXY=off go test -vet=off -count=1 -overlay /verif/replays/C07/VHarnessFaultSwap_3c319530_0/overlay.json -run ^TestVerifReplay_VHarnessFaultSwap$ -v ./mint
+cd /tmp/seedrepo_C01c && VERIF_SCRIPT=/verif/replays/C07/VHarnessFaultSwap_3c319530_0/script.json VERIF_RAW_SALT=0 GOFLAGS=-mod=mod GOPROXY=off go test -vet=off -count=1 -overlay /verif/replays/C07/VHarnessFaultSwap_3c319530_0/overlay.json -run ^TestVerifReplay_VHarnessFaultSwap$ -v ./mint
